@@ -40,15 +40,21 @@ func (c *Float) GetValue() float64 {
 }
 
 func (c *Float) GetMinValue() float64 {
-	return c.MinValue.(float64)
+	// Not every characteristic declares this bound
+	value, _ := c.MinValue.(float64)
+	return value
 }
 
 func (c *Float) GetMaxValue() float64 {
-	return c.MaxValue.(float64)
+	// Not every characteristic declares this bound
+	value, _ := c.MaxValue.(float64)
+	return value
 }
 
 func (c *Float) GetStepValue() float64 {
-	return c.StepValue.(float64)
+	// Not every characteristic declares this bound
+	value, _ := c.StepValue.(float64)
+	return value
 }
 
 // OnValueRemoteGet calls fn when the value was read by a client.
